@@ -1,0 +1,16 @@
+//go:build verif
+
+package prebuild
+
+// VerifDists exposes the distribution tables.
+func VerifDists() (map[string][]string, map[string][]string) {
+	return supportedDists, famillyDists
+}
+
+// VerifSetTarget sets the build target of the current process.
+func VerifSetTarget(dist string, abi int, version float64) {
+	Distribution = dist
+	Family = getFamily()
+	ABI = abi
+	Version = version
+}
